@@ -154,6 +154,7 @@ func (u *Universe) plans(st *SpecTables) map[string]*PropPlan {
 			{Func: "v3m.roundUp"}, // symbolic contract over all doubles in [0,10]: thorough tier only (minutes on cvc5)
 			{Func: "v3m.severity"}, {Func: "v3m.Severity.String"},
 			{Func: "v3m.Base.Severity", Families: []string{"sev"}}, {Func: "v3m.Temporal.Severity", Families: []string{"sev"}}, {Func: "v3m.Environmental.Severity", Families: []string{"sev"}},
+			{Func: "v2m.roundTo1Decimal"}, // thorough tier
 			{Func: "v2m.severity"}, {Func: "v2m.Severity.String"},
 			{Func: "v2m.Base.Severity", Families: []string{"sev"}}, {Func: "v2m.Temporal.Severity", Families: []string{"sev"}}, {Func: "v2m.Environmental.Severity", Families: []string{"sev"}},
 			{Lemma: "v3_grid_prints"},
